@@ -578,6 +578,20 @@ def apply_edit(font, name, a):
                     y0 = gl.coordinates[0][1]
                     for i_ in range(len(gl.coordinates)):
                         gl.coordinates[i_] = (gl.coordinates[i_][0], y0)
+                    if "vmtx" not in font and "vhea" not in font and "hhea" in font and "hmtx" in font:
+                        # vertical metrics added by the editor (no TrueType-flavoured corpus font has them)
+                        from fontTools.ttLib import newTable
+
+                        vh = font["vhea"] = newTable("vhea")
+                        vh.tableVersion = 0x00011000
+                        vh.ascent, vh.descent, vh.lineGap = 500, -500, 0
+                        vh.advanceHeightMax = vh.minTopSideBearing = vh.minBottomSideBearing = vh.yMaxExtent = 0
+                        vh.caretSlopeRise, vh.caretSlopeRun, vh.caretOffset = 0, 1, 0
+                        vh.reserved1 = vh.reserved2 = vh.reserved3 = vh.reserved4 = 0
+                        vh.metricDataFormat = 0
+                        vh.numberOfVMetrics = len(go)
+                        vm = font["vmtx"] = newTable("vmtx")
+                        vm.metrics = {n_: (1000, 100 + i_ % 7) for i_, n_ in enumerate(go)}
                     if "vmtx" in font:
                         lo = min(t for _, t in font["vmtx"].metrics.values())
                         adv, _ = font["vmtx"][g]
